@@ -22,6 +22,7 @@ mod sched;
 mod copyw;
 mod amap;
 mod own;
+mod ctor;
 
 use std::io::{BufRead, BufWriter, Write};
 
@@ -48,6 +49,7 @@ fn main() {
         "copyw" => Box::new(copyw::CopyExec::default()),
         "amap" => Box::new(amap::AmapExec::default()),
         "own" => Box::new(own::OwnExec::default()),
+        "ctor" => Box::new(ctor::CtorExec::default()),
         _ => {
             eprintln!("unknown module {module}");
             std::process::exit(2);
